@@ -55,11 +55,39 @@ VALUES = [
 ]
 
 
+# the same for values that are FIXED into an existing snapshot (the structural assignment inserts / appends the new
+# entries): (class, construction a, construction b, existing source).  The order of dict entries is part of the value,
+# so both constructions build the same order in different ways.
+_D6 = "[('id', 1), ('name', 'n'), ('mail', 'm'), ('zip', 'z'), ('city', 'c'), ('tel', 't'), ('fax', 'f')]"
+FIXES = [
+    ("dict-append", "dict(%s)" % _D6, "{k: v for k, v in %s}" % _D6, "{'id': 1}"),
+    ("dict-append", "dict(%s)" % _D6, "{k: v for k, v in %s}" % _D6, "{}"),
+    ("dict-flush", "dict(%s)" % _D6, "{k: v for k, v in %s}" % _D6, "{'fax': 'f'}"),
+    ("dict-flush", "dict(%s)" % _D6, "{k: v for k, v in %s}" % _D6, "{'zip': 0, 'gone': 1, 'fax': 'f'}"),
+    ("dict-append", "{10: 0, 3: 0, 1: 0, 7: 0, 22: 0}", "dict.fromkeys([10, 3, 1, 7, 22], 0)", "{10: 0}"),
+    ("dict-append", "[{'q': 1, 'b': 2, 'x': 3, 'a': 4}]", "[dict(q=1, b=2, x=3, a=4)]", "[{'q': 1}]"),
+    ("set-fix", "{'b', 'a', 'c', 'dd'}", "set(['dd', 'c', 'a', 'b'])", "{'a'}"),
+    ("set-fix", "[{'b', 'a', 'c'}, 1]", "[set(['c', 'a', 'b']), 1]", "[{'x'}, 1]"),
+    ("list-fix", "['n', {'s', 't', 'u'}, 'm', frozenset({'p', 'q'})]", "['n', set(['u', 't', 's']), 'm', frozenset(['q', 'p'])]", "['m']"),
+]
+NV = len(VALUES) + len(FIXES)
+
+
 def module_text(variant: int):
     out = [HEADER]
     for k, v in enumerate(VALUES):
         out.append("def test_%d():\n    assert %s == snapshot()\n\n\n" % (k, v[1 + variant]))
+    for k, v in enumerate(FIXES, len(VALUES)):
+        out.append("def test_%d():\n    assert %s == snapshot(%s)\n\n\n" % (k, v[1 + variant], v[3]))
     return "".join(out)
+
+
+def value_of(k):
+    """(class, construction a, existing source or None)"""
+    if k < len(VALUES):
+        return VALUES[k][0], VALUES[k][1], None
+    f = FIXES[k - len(VALUES)]
+    return f[0], f[1], f[3]
 
 
 def run_one(args):
@@ -78,7 +106,7 @@ def run_one(args):
             shadow.mkdir(parents=True)
             (shadow / "__init__.py").write_text("raise ImportError('black is not installed (verif)')\n")
             env["PYTHONPATH"] = str(d / "shadow") + os.pathsep + sd.base_env()["PYTHONPATH"]
-        r = sd.run_subprocess(proj, ["--inline-snapshot=create"], env=env, timeout=180)
+        r = sd.run_subprocess(proj, ["--inline-snapshot=create,fix"], env=env, timeout=180)
         text = (proj / "test_det.py").read_text()
         try:
             args_ = inline_driver.snapshot_args(text)
@@ -95,33 +123,34 @@ def judge(results):
     mism = []
     by_fmt = {}
     for r in results:
-        if r["error"] or r["args"] is None or len(r["args"]) != len(VALUES):
+        if r["error"] or r["args"] is None or len(r["args"]) != NV:
             mism.append({"clause": "session", "props": ["C16", "C18"], "detail": {"key": r["key"], "error": r["error"]}})
             continue
         by_fmt.setdefault(r["key"][2], []).append(r)
     ref = {}
     for fmt, rs in by_fmt.items():
-        for k, v in enumerate(VALUES):
+        for k in range(NV):
+            v = (value_of(k)[0], value_of(k)[1])
             texts = {}
             for r in rs:
                 texts.setdefault(r["args"][k], []).append(r["key"][:2])
             if len(texts) != 1:
                 seeds_differ = len({t for t, ks in texts.items() for (va, s) in ks if va == 0}) > 1
                 mism.append({"clause": "hash-seed" if seeds_differ else "construction-order", "props": ["C16"],
-                             "detail": {"value": v[1], "class": v[0], "formatter": fmt,
+                             "detail": {"value": v[1], "class": v[0], "existing": value_of(k)[2], "formatter": fmt,
                                         "texts": {t: ks[:4] for t, ks in list(texts.items())[:4]}}})
             ref.setdefault(k, {})[fmt] = next(iter(texts))
     for k, per in ref.items():
         dumps = {}
         for fmt, t in per.items():
             if t is None:
-                mism.append({"clause": "not-created", "props": ["C16", "C01"], "detail": {"value": VALUES[k][1], "formatter": fmt}})
+                mism.append({"clause": "not-created", "props": ["C16", "C01"], "detail": {"value": value_of(k)[1], "formatter": fmt}})
                 continue
             try:
                 dumps[fmt] = ast.dump(ast.parse(t, mode="eval"))
             except SyntaxError:
-                mism.append({"clause": "formatter-syntax", "props": ["C16"], "detail": {"value": VALUES[k][1], "formatter": fmt, "text": t}})
+                mism.append({"clause": "formatter-syntax", "props": ["C16"], "detail": {"value": value_of(k)[1], "formatter": fmt, "text": t}})
         if len(set(dumps.values())) > 1:
             mism.append({"clause": "formatter-changes-code", "props": ["C16"],
-                         "detail": {"value": VALUES[k][1], "class": VALUES[k][0], "texts": per}})
+                         "detail": {"value": value_of(k)[1], "class": value_of(k)[0], "texts": per}})
     return mism
